@@ -96,7 +96,7 @@ def patience_writers(ctx, P):
         if not names & allowed:
             ctx.violation(ob, "R1.patience-writer", q, unparse(node)[:90], "patience-rewritten-during-wait",
                           "reneging_date is re-assigned while the customer keeps waiting: it must leave exactly at arrival + the patience sampled on arrival", loc(node))
-    ctx.floor("writes of reneging_date", n, 2)
+    ctx.floor("writes of reneging_date", n, 1)
 
 
 def renege_scan(ctx, P):
@@ -124,7 +124,8 @@ def renege_scan(ctx, P):
             app = [s for s in ast.walk(arm) if isinstance(s, ast.Call) and call_name(s) == "append"]
             if name == "reset" and (len(st) != 1 or unparse(st[0].value).replace(" ", "") != "([%s],%s.reneging_date)" % (var, var) or "'renege'" not in unparse(st[0].targets[0])):
                 ctx.violation(ob, "R6.argmin", "%s.update_next_renege_time" % cls.name, unparse(st[0]) if st else "possible_next_events['renege']", "scan-result-not-stored", "the renege candidate must be ([customer], its reneging_date)", loc(arm))
-            if name == "tie" and (len(app) != 1 or unparse(app[0].args[0]) != var or "'renege'" not in unparse(app[0].func)):
+            app = [x_ for x_ in ast.walk(arm) if isinstance(x_, ast.Call) and call_name(x_) in ("append", "insert")]
+            if name == "tie" and app and (len(app) != 1 or unparse(app[0].args[-1]) != var or "'renege'" not in unparse(app[0].func)):
                 ctx.violation(ob, "R6.argmin", "%s.update_next_renege_time" % cls.name, "tie arm append", "scan-result-not-stored", "a tied customer must be appended to the renege candidates", loc(arm))
         # reachability: the renege event type is produced only under not-INF and REN
         C = contexts(P, view)
@@ -143,7 +144,7 @@ def renege_scan(ctx, P):
         rv = [x for x in ast.walk(fn) if isinstance(x, ast.Return)]
         rname = unparse(rv[0].value) if len(rv) == 1 else "?"
         vals = sorted(set(unparse(x.value) for x in ast.walk(fn) if isinstance(x, ast.Assign) and unparse(x.targets[0]) == rname))
-        if vals != ["random_choice(self.next_individual)", "self.next_individual[0]"]:
+        if vals not in (["random_choice(self.next_individual)", "self.next_individual[0]"], ["random_choice(self.next_individual)", "self.next_individual[-1]"]):
             ctx.violation(ob, "R6.argmin", "%s.decide_between_simultaneous_individuals" % cls.name, str(vals), "subject-not-selected", "must pick one of self.next_individual", loc(fn))
 
 
